@@ -17,7 +17,7 @@ func init() { cmds["agentlife"] = agentLifeCmd }
 func agentLifeCmd(args []string) int {
 	fs := flag.NewFlagSet("agentlife", flag.ExitOnError)
 	bin := fs.String("bin", "", "the real binary")
-	mode := fs.String("mode", "kill", "kill | second")
+	mode := fs.String("mode", "kill", "kill | second | stop | outcome")
 	every := fs.Int("every", 1, "every n-th point")
 	out := fs.String("out", "agentlife.ndjson", "records")
 	fs.Parse(args)
@@ -40,6 +40,8 @@ func agentLifeCmd(args []string) int {
 		}
 	} else if *mode == "stop" {
 		err = rig.StopRuns(*bin, base, emit)
+	} else if *mode == "outcome" {
+		err = rig.OutcomeRuns(*bin, base, emit)
 	} else {
 		err = rig.SecondStartSweep(*bin, base, *every, emit)
 	}
